@@ -20,6 +20,7 @@ RULE = ("cases = recurrence descriptions as in C12 (incl. single-point ones "
         "text round trip for parser-producible recurrences; non-trivial = "
         "the shift is non-zero or the pair differs in spelling; distinct by "
         "(description, shift or variant)")
+RUN_REPO_SUITE = True   # thorough tier: repo tests under these monitors
 DECIDING = ["shift.post", "roundtrip", "siblings", "twins", "inverse"]
 MIN_EVALS = {"shift.post": 1500, "roundtrip": 600, "siblings": 600,
              "twins": 300, "inverse": 600}
